@@ -92,6 +92,8 @@ pub fn dispatch(which: &str, v: &Value, case: &Value) -> Value {
         "c11_split" => c11_split(v),
         "c12_scheme" => c12_scheme(v),
         "c12_types" => c12_types(v),
+        "c12_presplit" => c12_presplit(v),
+        "c05_select" => c05_select(v),
         "c12_srchash" => c12_srchash(v),
         "c16_labels" => c16_labels(v, false),
         "c16_entity" => c16_labels(v, true),
@@ -469,7 +471,14 @@ fn c04_id(v: &Value, check: &str) -> Value {
     if has_dz {
         z.opt_domains = Some(vec![dz]);
     }
-    let same = fy == fz && has_hy == has_hz && (!has_hy || hy == hz) && has_dy == has_dz && (!has_dy || dy == dz);
+    let (has_ny, has_nz, ny, nz) = (b(&v["has_ny"]), b(&v["has_nz"]), u(&v["ny"]), u(&v["nz"]));
+    if has_ny {
+        y.opt_not_domains = Some(vec![ny]);
+    }
+    if has_nz {
+        z.opt_not_domains = Some(vec![nz]);
+    }
+    let same = fy == fz && has_hy == has_hz && (!has_hy || hy == hz) && has_dy == has_dz && (!has_dy || dy == dz) && has_ny == has_nz && (!has_ny || ny == nz);
     let ids_eq = z.get_id_without_badfilter() == y.get_id();
     let repro = if check.contains("same_rule_is_cancelled") {
         same && !ids_eq
@@ -501,8 +510,8 @@ fn c05_fuse(v: &Value) -> Value {
     let p2 = sub(v, "b2", "l2");
     let url = sub(v, "ub", "ul");
     let mkf = |p: &str, empty: bool, tag: bool| mk_filter(m, if empty { FilterPart::Empty } else { FilterPart::Simple(p.to_string()) }, None, if tag { Some("a") } else { None });
-    let f1 = mkf(&p1, b(&v["e1"]), b(&v["t1"]));
-    let mut f2 = mkf(&p2, b(&v["e2"]), b(&v["t2"]));
+    let f1 = mkf(&p1, b(&v["force_e1"]), b(&v["t1"]));
+    let mut f2 = mkf(&p2, b(&v["force_e2"]), b(&v["t2"]));
     if f2.id == f1.id {
         f2.id = f1.id.wrapping_add(1);
     }
@@ -519,6 +528,45 @@ fn c05_fuse(v: &Value) -> Value {
     };
     let (a, o) = (run(false), run(true));
     json!({"reproduced": a != o, "unoptimised": format!("{:?}", a), "optimised": format!("{:?}", o), "mask": m, "patterns": [p1, p2], "url": url})
+}
+
+/// select is private: a Blocker with optimisation on must answer like one with optimisation off for the rule
+/// value together with a fusable twin
+fn c05_select(v: &Value) -> Value {
+    let m = u(&v["m"]) as u32;
+    let mut f = mk_filter(m, FilterPart::Simple("a".into()), None, if b(&v["has_tag"]) { Some("a") } else { None });
+    if b(&v["has_d"]) {
+        f.opt_domains = Some(vec![7]);
+    }
+    if b(&v["has_n"]) {
+        f.opt_not_domains = Some(vec![9]);
+    }
+    let mut twin = mk_filter(m, FilterPart::Simple("b".into()), None, None);
+    twin.id = f.id.wrapping_add(1);
+    let r = catch_unwind(AssertUnwindSafe(|| {
+        let mut diffs = 0;
+        for (url, src, tags) in [("https://x.com/a", None, false), ("https://x.com/b", None, false), ("https://x.com/a", Some(vec![7u64]), true), ("https://x.com/b", Some(vec![9u64]), true)] {
+            for rt in [RequestType::Script, RequestType::Document, RequestType::Image] {
+                let req = mk_request(url, "x.com", rt, false, true, true, src.clone());
+                let run = |opt: bool| {
+                    let mut bl = blocker_of(vec![f.clone(), twin.clone()], opt);
+                    if tags {
+                        bl.use_tags(&["a"]);
+                    }
+                    let r = bl.check(&req, &ResourceStorage::default());
+                    (r.matched, r.important, r.exception.is_some(), r.redirect, bl.get_csp_directives(&req))
+                };
+                if run(false) != run(true) {
+                    diffs += 1;
+                }
+            }
+        }
+        diffs
+    }));
+    match r {
+        Ok(d) => json!({"reproduced": d > 0, "differing_queries": d, "mask": m}),
+        Err(e) => json!({"reproduced": true, "panic": panic_msg(e), "mask": m}),
+    }
 }
 
 // ------------------------------------------------------------------------------------------------- C08
@@ -569,14 +617,15 @@ fn c08_rule(_v: &Value, check: &str) -> Value {
             diffs.push(json!({"rule": rule, "error": "deserialize failed"}));
             continue;
         }
-        let req = Request::new(url, src, "script").unwrap();
-        let (a, bb) = (e.check_network_request(&req), e2.check_network_request(&req));
-        let doc = Request::new(url, src, "document").unwrap();
-        let (ca, cb) = (e.get_csp_directives(&doc), e2.get_csp_directives(&doc));
-        let fa = (a.matched, a.important, a.exception.is_some(), a.redirect.clone(), a.rewritten_url.clone(), a.filter.clone(), ca);
-        let fb = (bb.matched, bb.important, bb.exception.is_some(), bb.redirect.clone(), bb.rewritten_url.clone(), bb.filter.clone(), cb);
-        if fa != fb {
-            diffs.push(json!({"rule": rule, "url": url, "tags": tags, "before": format!("{:?}", fa), "after": format!("{:?}", fb)}));
+        for ty in ["script", "document", "xmlhttprequest", "image", "sub_frame"] {
+            let req = Request::new(url, src, ty).unwrap();
+            let (a, bb) = (e.check_network_request(&req), e2.check_network_request(&req));
+            let (ca, cb) = (e.get_csp_directives(&req), e2.get_csp_directives(&req));
+            let fa = (a.matched, a.important, a.exception.is_some(), a.redirect.clone(), a.rewritten_url.clone(), a.filter.clone(), ca);
+            let fb = (bb.matched, bb.important, bb.exception.is_some(), bb.redirect.clone(), bb.rewritten_url.clone(), bb.filter.clone(), cb);
+            if fa != fb {
+                diffs.push(json!({"rule": rule, "url": url, "type": ty, "tags": tags, "before": format!("{:?}", fa), "after": format!("{:?}", fb)}));
+            }
         }
     }
     json!({"reproduced": !diffs.is_empty(), "battery_entries_run": ran, "differences": diffs, "api": "Engine::serialize_raw -> Engine::deserialize -> check_network_request / get_csp_directives"})
@@ -635,6 +684,14 @@ fn c12_scheme(v: &Value) -> Value {
     let ok = r.is_http == h && r.is_https == (hs || s.is_empty()) && r.is_supported == (s.is_empty() || h || hs || w || ws)
         && (r.request_type == RequestType::Websocket) == (w || ws || raw == "websocket") && !(r.is_http && r.is_https);
     json!({"reproduced": !ok, "scheme": s, "type": raw, "is_http": r.is_http, "is_https": r.is_https, "is_supported": r.is_supported, "request_type": format!("{:?}", r.request_type)})
+}
+fn c12_presplit(v: &Value) -> Value {
+    let url = sub(v, "ub", "ul");
+    let r = Request::preparsed(&url, "", "", "image", false);
+    let scheme = url.split(':').next().filter(|_| url.contains(':')).unwrap_or("");
+    let (h, hs, w, ws) = (scheme == "http", scheme == "https", scheme == "ws", scheme == "wss");
+    let ok = r.is_supported == (scheme.is_empty() || h || hs || w || ws) && (r.request_type == RequestType::Websocket) == (w || ws);
+    json!({"reproduced": !ok, "url": url, "scheme": scheme, "is_supported": r.is_supported, "request_type": format!("{:?}", r.request_type)})
 }
 fn c12_types(v: &Value) -> Value {
     const T: [(&str, &str); 25] = [
